@@ -125,15 +125,26 @@ class Codec:
             self.ok = False
         ok, log, self.rel = vf.cargo_build_harness("release")
         if not ok:
-            check.errors.append("building the codec harness (release) from /repo failed: " + log[-3000:])
-            self.ok = False
+            self._harness_failed(check, "release", log)
         self.dbg = None
-        if want_debug:
+        if want_debug and self.ok:
             ok, log, self.dbg = vf.cargo_build_harness("debug")
             if not ok:
-                check.errors.append("building the codec harness (debug) from /repo failed: " + log[-3000:])
-                self.ok = False
+                self._harness_failed(check, "debug", log)
         self.emap = errmap()
+
+    def _harness_failed(self, check, profile, log):
+        """The codec harness #[path]-includes /repo/src and calls its items by name.  If it no longer builds although the
+        crate itself does, the code has been rewritten under the harness: the correspondence can no longer be checked
+        (a broken tie, reported as such), which is different from a tree that does not build at all (an error)."""
+        self.ok = False
+        ok_crate, log2, _so = vf.cargo_build_cdylib()
+        m = [ln for ln in log.splitlines() if ln.startswith("error")]
+        if ok_crate:
+            check.broken = list(check.broken) + ["correspondence: the codec harness (%s) no longer builds against /repo although the crate does "
+                                                 "(items it calls were renamed or re-typed): %s" % (profile, "; ".join(m[:3])[:400])]
+        else:
+            check.errors.append("building the codec harness (%s) from /repo failed and so does the crate: %s" % (profile, log[-2000:]))
 
     def run(self, lines, debug=True):
         """-> (model_out, release_out, debug_out or None)"""
